@@ -16,6 +16,7 @@ X4 the UTF-8 pointer obtained from the user's string is NULL-tested before it is
 """
 import ast
 
+import re
 from .. import AnalysisError
 from ..cast import cx, rules
 from ..cast.cfg import cfg_of, stmt_text
@@ -696,6 +697,58 @@ def backend_summary(run, P, tu):
     run.need(seen_sites >= 10, 'backend error sites found: %d' % seen_sites)
 
 
+def x5(run, tu):
+    """the C parser never reads outside the token it classifies: in search_standard_typename(p, size) every p[K], p[size-c] and
+    memcmp(p, "...", n) is dominated by tests that make size at least K+1 / c / n"""
+    fn = 'search_standard_typename'
+    g = cfg_of(tu, fn)
+    n_reads = 0
+    worst = None
+    for n in g.nodes:
+        if n.ast is None:
+            continue
+        reads = []
+        for x in cx.walk(n.ast):
+            if x.get('kind') == 'ArraySubscriptExpr':
+                ks = cx.kids(x)
+                if len(ks) == 2 and cx.render(cx.strip(ks[0], casts=True)) == 'p':
+                    idx = cx.render(cx.strip(ks[1], casts=True)).replace(' ', '')
+                    if re.match(r'^\d+$', idx):
+                        reads.append((cx.render(x), int(idx) + 1))
+                    else:
+                        m = re.match(r'^size-(\d+)$', idx)
+                        if not m:
+                            raise AnalysisError('%s: read %s is neither p[K] nor p[size-c]' % (fn, cx.render(x)))
+                        reads.append((cx.render(x), int(m.group(1))))
+        for c in cx.calls_in(n.ast):
+            if cx.callee_name(c) in ('memcmp', '__builtin_memcmp', 'strncmp') and cx.call_args(c) and cx.render(cx.strip(cx.call_args(c)[0], casts=True)) == 'p':
+                a2 = cx.render(cx.strip(cx.call_args(c)[2], casts=True))
+                if not a2.isdigit():
+                    raise AnalysisError('%s: %s compares a non-constant number of bytes' % (fn, cx.render(c)))
+                reads.append((cx.render(c)[:40], int(a2)))
+        if not reads:
+            continue
+        low = 0
+        for t in g.fact_texts(n.id):
+            lab, cond = t.split(':', 1)
+            c0 = cond.replace(' ', '')
+            m = re.match(r'^size(==|>=|>|<|<=)(\d+)$', c0)
+            if not m:
+                continue
+            op, k = m.group(1), int(m.group(2))
+            if lab == 'T':
+                low = max(low, {'==': k, '>=': k, '>': k + 1}.get(op, 0))
+            elif lab == 'F':
+                low = max(low, {'<': k, '<=': k + 1}.get(op, 0))
+        for text, need in reads:
+            n_reads += 1
+            if low < need and (worst is None):
+                worst = (text, need, low, tu.where(n.ast))
+    run.need(n_reads >= 40, '%s: only %d reads of the token text found' % (fn, n_reads))
+    run.ob('X5/token-classifier-reads-inside-the-token', fn, '%d reads of p[...] / memcmp(p, ...)' % n_reads, worst is None, worst[3] if worst else tu.where(tu.func(fn)),
+           'the read %s needs size >= %d but only size >= %d is established there: for a shorter token at the end of the text it reads past the terminating NUL' % worst[:3] if worst else '')
+
+
 def check(run):
     run.explanation = (
         'Python: inter-procedural exception-escape analysis over the cffi package from FFI.cdef/FFI.typeof (import-aware '
@@ -717,8 +770,10 @@ def check(run):
     n2 = x2(run, tu)
     run.need(n2 >= 3, 'X2 matched %d stores into tok->output' % n2)
     x3_x4(run, tu)
+    x5(run, tu)
     run.min_instances('E/escaping-site-has-a-verified-reason', 15)
     run.min_instances('E/site-contained-before-the-entry-point', 2)
     run.min_instances('X3', 3)
+    run.min_instances('X5', 1)
     run.assume('errors raised inside pycparser other than ParseError, None-dereferences (AttributeError) and dict lookups (KeyError) are not inventoried')
     run.assume('backend constructors reached through model.global_cache are summarised in the thorough tier only')
